@@ -116,7 +116,7 @@ class PipelineBuilder:
         builder._nodes = {n.name: n for n in pipeline.nodes()}
         builder._aliases = {a: builder.node(t) for (a, t) in pipeline.config.aliases.items()}
         for name, spec in pipeline.config.components.items():
-            builder._edges[name] = spec.inputs
+            builder._edges[name] = dict(spec.inputs)
         builder._default = pipeline.config.default
 
         return builder
